@@ -178,6 +178,14 @@ def r2_merge(chk, repo):
         okm = norm(lc.generators[0].iter) == CH and norm(lc.elt) == f"{norm(lc.generators[0].target)}.data"
     resorted = [st for st in walk_body(mg.node) if isinstance(st, ast.Assign) and norm(st.targets[0]) == CH and "sorted(" in norm(st.value)] + [st for st in walk_body(mg.node) if isinstance(st, ast.Expr) and norm(st.value).startswith(f"{CH}.sort(")]
     chk.check(okm and not resorted, "C08.R2", mg, resorted[0] if resorted else (stmt_of(ma[0]) if ma else None), "Chunk.merge does not merge the data arrays in the order the chunks were given (depends_on order): on a shared field name another dependency's values win", site_text="Chunk.merge: merge_arrs([c.data for c in chunks]) in the given order", site={"function": mg.qualname, "rule": "merge order"})
+    gk = repo.func("group_by_kind", "strax/utils.py")
+    loops = [n for n in walk_body(gk.node) if isinstance(n, ast.For) and norm(n.iter) == gk.params[0]]
+    okg = False
+    for lp in loops:
+        apps = [c for st in lp.body for c in calls_in(st) if isinstance(c.func, ast.Attribute) and c.func.attr == "append" and c.args and norm(c.args[0]) == norm(lp.target) and isinstance(c.func.value, ast.Subscript)]
+        okg = okg or bool(apps)
+    usesgb = any((call_name(c) or "").endswith("groupby") for c in calls_in(gk.node))
+    chk.check(okg and not usesgb, "C08.R2", gk, None, "group_by_kind does not collect *every* data type of a kind (a per-kind list appended to for each data type); e.g. itertools.groupby only groups neighbours, so same-kind dependencies that are not adjacent in depends_on are dropped from the merge without an error", site_text="group_by_kind: for d in dtypes: by_kind[kind(d)].append(d)", site={"function": gk.qualname, "rule": "all data types of a kind"})
     # an inlined multi-output plugin is computed once per chunk: all its outputs are stored
     psp = repo.func("ParallelSourcePlugin.do_compute", PSP)
     rc = [st for st in walk_body(psp.node) if isinstance(st, ast.Assign) and isinstance(st.value, ast.Call) and isinstance(st.value.func, ast.Attribute) and st.value.func.attr == "do_compute" and isinstance(st.targets[0], ast.Name)]
@@ -257,6 +265,9 @@ def r4_pacemaker(chk, repo):
 
 
 WITNESSES = [
+    W("group_by_kind groups only neighbours", "C08.R2", "strax/utils.py",
+      "deps_by_kind: ty.Dict = dict()\n    for d in dtypes:\n        p = plugins[d]\n        k = p.data_kind_for(d)\n        deps_by_kind.setdefault(k, [])\n        deps_by_kind[k].append(d)\n\n    return deps_by_kind",
+      "return {kind: list(ds) for kind, ds in itertools.groupby(dtypes, key=lambda d: plugins[d].data_kind_for(d))}"),
     W("merge order follows the data type names", "C08.R2", "strax/chunk.py",
       "data = strax.merge_arrs(", "chunks = sorted(chunks, key=lambda x: x.data_type)\n        data = strax.merge_arrs("),
     W("inlined multi-output plugin stores one output per computation", "C08.R2", PSP,
